@@ -960,6 +960,35 @@ func tbC15Tags(c *Ctx, p *packages.Package, attrs, ts *types.Named) {
 				}
 			}
 		}
+		// a check written as a loop over a local table of (name, value) rows: every row's value is tested for
+		// emptiness, the empty edge only returns errors, and the check's success means the loop ran to completion
+		for _, g := range w.Tree(mfn) {
+			if g == mfn || g.Parent() != nil || errorResultIndex(g) < 0 || !w.failurePropagates(mfn, g) {
+				continue
+			}
+			sites := w.sitesIn(mfn, g)
+			covers := len(sites) > 0
+			for _, r := range w.MayBeNilReturns(mfn) {
+				if mfn.Recover != nil && r.Block() == mfn.Recover {
+					continue
+				}
+				dom := false
+				for _, site := range sites {
+					if si, ok := site.(ssa.Instruction); ok && w.DeepDominates(mfn, si, r) {
+						dom = true
+					}
+				}
+				if !dom {
+					covers = false
+				}
+			}
+			if !covers {
+				continue
+			}
+			for f := range tbLoopRejects(w, g) {
+				ssaRejects[f] = true
+			}
+		}
 		for f := range ssaRejects {
 			if !rejects[f] {
 				rejects[f], tested[f] = true, true
@@ -2527,7 +2556,15 @@ func tablesC13(c *Ctx) {
 		}
 	}
 	if !seenTagged["agentLifetimeConstraint"] {
-		c.Unresolved(rule, "struct yubiagent.agentLifetimeConstraint with an sshtype tag")
+		// the constraint assembled by hand from a code constant instead of a tagged struct
+		if k := tbPkgConst(p, "agentConstrainLifetime"); k != nil {
+			want, src := xConst("agentConstrainLifetime", 1)
+			v, _ := tbIntVal(k.Val())
+			c.Check(v == want, rule, "constant agentConstrainLifetime|equals the lifetime-constraint code", c.w.Pos(k.Pos()),
+				fmt.Sprintf("agentConstrainLifetime = %d (%s)", v, src), fmt.Sprintf("agentConstrainLifetime = %d but the lifetime-constraint code is %d (%s)", v, want, src))
+		} else {
+			c.Unresolved(rule, "struct yubiagent.agentLifetimeConstraint with an sshtype tag")
+		}
 	}
 	if k := tbPkgConst(p, "agentConstrainConfirm"); k == nil {
 		c.Unresolved(rule, "constant yubiagent.agentConstrainConfirm")
@@ -3119,4 +3156,183 @@ func tablesC14(c *Ctx) {
 		}
 	}
 	c.Floor(rule, nSucc, 1, "successful return of "+pfc.Name())
+}
+
+// tbLoopRejects: receiver fields that function g rejects when empty by means of a loop over a local array of rows:
+// the array is filled once with constant indices, one field of each row holding a receiver field; the loop ranges
+// forward over the whole array, compares that field of the current row with "" and, when it is empty, only returns
+// non-nil errors; g returns success only with the loop exhausted.
+func tbLoopRejects(w *World, g *ssa.Function) map[string]bool {
+	out := map[string]bool{}
+	gf := w.Facts(g)
+	for _, b := range g.Blocks {
+		iff, ok := b.Instrs[len(b.Instrs)-1].(*ssa.If)
+		if !ok {
+			continue
+		}
+		cmp, ok := iff.Cond.(*ssa.BinOp)
+		if !ok || (cmp.Op != token.EQL && cmp.Op != token.NEQ) {
+			continue
+		}
+		if k, isK := strConst(cmp.Y); !isK || k != "" {
+			continue
+		}
+		// x = *(&row.F) with row a local copy of arr[idx]
+		ld, ok := cmp.X.(*ssa.UnOp)
+		if !ok || ld.Op != token.MUL {
+			continue
+		}
+		fa, ok := ld.X.(*ssa.FieldAddr)
+		if !ok {
+			continue
+		}
+		var idxV *ssa.Index
+		var elemAddr *ssa.IndexAddr
+		switch row := fa.X.(type) {
+		case *ssa.Alloc:
+			stores, okc := cellStores(row)
+			if !okc || len(stores) != 1 {
+				continue
+			}
+			idxV, _ = stores[0].Val.(*ssa.Index)
+			if idxV == nil {
+				if l2, ok := stores[0].Val.(*ssa.UnOp); ok && l2.Op == token.MUL {
+					elemAddr, _ = l2.X.(*ssa.IndexAddr)
+				}
+			}
+		case *ssa.IndexAddr:
+			elemAddr = row
+		}
+		var arr *ssa.Alloc
+		var idx ssa.Value
+		switch {
+		case idxV != nil:
+			if l3, ok := idxV.X.(*ssa.UnOp); ok && l3.Op == token.MUL {
+				arr, _ = l3.X.(*ssa.Alloc)
+			}
+			idx = idxV.Index
+		case elemAddr != nil:
+			arr, _ = elemAddr.X.(*ssa.Alloc)
+			idx = elemAddr.Index
+		}
+		if arr == nil || idx == nil || !isForwardRangeIndex(idx) {
+			continue
+		}
+		at, ok := arr.Type().(*types.Pointer).Elem().Underlying().(*types.Array)
+		if !ok {
+			continue
+		}
+		// the loop bound is the array's length
+		var hdr *ssa.BasicBlock
+		if bin, ok := idx.(*ssa.BinOp); ok {
+			hdr = bin.Block()
+		} else if phi, ok := idx.(*ssa.Phi); ok {
+			hdr = phi.Block()
+		}
+		if hdr == nil {
+			continue
+		}
+		hif, ok := hdr.Instrs[len(hdr.Instrs)-1].(*ssa.If)
+		if !ok {
+			continue
+		}
+		hc, ok := hif.Cond.(*ssa.BinOp)
+		if !ok || hc.Op != token.LSS || hc.X != idx {
+			continue
+		}
+		if n, isK := intConst(hc.Y); !isK || n != at.Len() {
+			continue
+		}
+		// empty edge: only non-nil error returns
+		emptySucc := b.Succs[0]
+		if cmp.Op == token.NEQ {
+			emptySucc = b.Succs[1]
+		}
+		okErr := true
+		seen := map[*ssa.BasicBlock]bool{}
+		var walk func(x *ssa.BasicBlock)
+		walk = func(x *ssa.BasicBlock) {
+			if seen[x] || !okErr {
+				return
+			}
+			seen[x] = true
+			if x == hdr {
+				okErr = false
+				return
+			}
+			if r, isRet := x.Instrs[len(x.Instrs)-1].(*ssa.Return); isRet {
+				for _, lf := range w.Leaves(r.Results[errorResultIndex(g)], r) {
+					if !w.NonNil(lf.Val, lf.Facts) {
+						okErr = false
+					}
+				}
+				return
+			}
+			for _, sx := range x.Succs {
+				walk(sx)
+			}
+		}
+		walk(emptySucc)
+		if !okErr {
+			continue
+		}
+		// success only with the loop exhausted
+		okDone := true
+		for _, r := range w.MayBeNilReturns(g) {
+			if v, known := gf.KnownBool(r.Block(), hc); !known || v {
+				okDone = false
+			}
+		}
+		if !okDone {
+			continue
+		}
+		// the rows: stores arr[k].F = <receiver field>, k constant, every k present, nothing else written
+		vals := map[int64]ssa.Value{}
+		clean := true
+		for _, r := range *arr.Referrers() {
+			switch u := r.(type) {
+			case *ssa.IndexAddr:
+				k, isK := intConst(u.Index)
+				if !isK {
+					if u != elemAddr {
+						clean = false
+					}
+					continue
+				}
+				for _, r2 := range *u.Referrers() {
+					fa2, isFA := r2.(*ssa.FieldAddr)
+					if !isFA {
+						clean = false
+						continue
+					}
+					for _, r3 := range *fa2.Referrers() {
+						st, isSt := r3.(*ssa.Store)
+						if !isSt || st.Addr != ssa.Value(fa2) || st.Block() != g.Blocks[0] {
+							clean = false
+							continue
+						}
+						if fa2.Field == fa.Field {
+							if _, dup := vals[k]; dup {
+								clean = false
+							}
+							vals[k] = st.Val
+						}
+					}
+				}
+			case *ssa.UnOp, *ssa.DebugRef:
+			default:
+				clean = false
+			}
+		}
+		if !clean || int64(len(vals)) != at.Len() {
+			continue
+		}
+		for _, v := range vals {
+			ex := w.Expr(v)
+			if strings.HasPrefix(ex, "p0.") && !strings.Contains(ex[3:], ".") && !strings.ContainsAny(ex, "(<") {
+				out[ex[3:]] = true
+			}
+		}
+	}
+	return out
 }
